@@ -8,6 +8,7 @@ import Cnl2aspModel.Compiler.Cli
 import Cnl2aspModel.Asp.PrintAtom
 import Cnl2aspModel.Compiler.Route
 import Cnl2aspModel.Compiler.Signatures
+import Cnl2aspModel.Compiler.Naming
 
 open Lean Cnl2aspModel
 
@@ -137,6 +138,15 @@ def c13table (j : Json) : Json :=
     ("flat", Json.num (flatArity s)), ("atom", Json.num (atomArity s)), ("fn", Json.num (fnArity s)),
     ("printedFn", Json.num (printedFnArity nameEq s))]).toArray)]
 
+open Naming in
+def c07namer (j : Json) : Json :=
+  let created := (jstrs j "avoid").map String.toList
+  let name := (jstr j "name").toList
+  let r := if jstr j "which" == "parser" then parserNamer 200 created name else converterNamer 200 created name
+  match r with
+  | none => Json.mkObj [("err", "fuel")]
+  | some (n, c) => Json.mkObj [("ok", Json.str (chars n)), ("avoid", Json.arr (c.map fun x => Json.str (chars x)).toArray)]
+
 open LineCol in
 def linecol (j : Json) : Json :=
   let s := (jstr j "s").toList
@@ -158,6 +168,7 @@ def dispatch (op : String) (j : Json) : Json :=
   | "c14.print" => Ops.c14print j
   | "c11.route" => Ops.c11route j
   | "c13.table" => Ops.c13table j
+  | "c07.namer" => Ops.c07namer j
   | _ => Json.mkObj [("err", "bad-op")]
 
 partial def loop (h : IO.FS.Stream) (out : IO.FS.Stream) : IO Unit := do
